@@ -10,7 +10,7 @@ MB_SHORTS = ["é", "ü", "日", "ß", "Ω", "😀"]
 
 DEFAULT_PROFILE = dict(
     n_opts=(1, 6), p_short=0.6, p_long=0.75, p_mb_short=0.08, p_desc=0.3, p_default=0.2, p_required=0.12, p_optional=0.1,
-    p_choice=0.1, p_env=0.1, p_hidden=0.08, p_valname=0.1, p_mask=0.05, p_ininame=0.05, p_inicross=0.0, p_noini=0.03, p_base=0.1, p_unquote_false=0.03,
+    p_choice=0.1, p_env=0.1, p_hidden=0.08, p_valname=0.1, p_mask=0.05, p_ininame=0.05, p_inicross=0.0, p_addoption=0.0, p_noini=0.03, p_base=0.1, p_unquote_false=0.03,
     p_group=0.25, p_ptr_group=0.4, p_nil_ptr=0.5, p_namespace=0.5, p_plain_nested=0.08, p_unexported=0.05, p_untagged=0.1, p_noflag=0.03,
     p_commands=0.45, max_depth=2, n_cmds=(1, 3), p_alias=0.3, p_cmd_hidden=0.1, p_subopt=0.25, p_exec=0.6, p_exec_err=0.2,
     p_tagcmd=0.5, p_positional=0.3, n_pos=(1, 3), p_pos_slice=0.4, p_pos_required=0.4,
@@ -121,7 +121,9 @@ class Gen:
                 t = {"d": str(a), "x": "0x%x" % a, "o": "0o%o" % a, "b": "0b" + bin(a)[2:], "0": "0%o" % a}[form]
                 return (("-" if n < 0 else "") + t).encode()
             return str(n).encode()
-        if kind == "float32": return r.choice([b"1.5", b"-2.25", b"1e3", b"3.4e38", b"0", b"-0", b".5", b"16777217", b"0.1", b"1e-45", b"-1.5e-3", b"inf", b"+Inf", b"0x1p-2", b"1_0"])
+        if kind == "float32": return r.choice([b"1.5", b"-2.25", b"1e3", b"3.4e38", b"0", b"-0", b".5", b"16777217", b"0.1", b"1e-45", b"-1.5e-3", b"inf", b"+Inf", b"0x1p-2", b"1_0",
+                                               # beyond float32 but within float64 (rejected), and a decimal just above a rounding midpoint (no double rounding)
+                                               b"3.5e38", b"-1e39", b"1.00000005960464477539062500000000000001"])
         if kind == "float64": return r.choice([b"1.5", b"-2.25", b"1e3", b"1.7976931348623157e308", b"0", b".5", b"-.5", b"0.1", b"5e-324", b"123456789.123456789", b"-Inf", b"infinity", b"1e308", b"-7"])
         if kind == "duration": return r.choice([b"1h", b"2m30s", b"1.5s", b"300ms", b"-1h", b"0", b"1h2m3s4ms5us6ns", b"2562047h", b"1us", b"+5m", b".5h"])
         if kind == "custom": return strgen.rstr(r, 5, p_bad=0.02)
@@ -247,7 +249,7 @@ class Gen:
         self.fid += 1
         self.fname += 1
         fid = self.fid
-        t = self.gen_type()
+        t = getattr(self, "force_type", None) or self.gen_type()
         kvs = []
         short = long = None
         if self.chance("p_short"): short = self.new_short(scope)
@@ -553,6 +555,12 @@ class Gen:
             lo, hi = self.p["n_cmds"]
             for _ in range(r.randint(lo, hi)):
                 self.gen_attach_command(root, [], attach, taken, 1)
+        while self.p["p_addoption"] and r.random() < self.p["p_addoption"] and len(attach) < 12:
+            # on the parser itself, or on one of the API-declared commands
+            cands = [([], root)] + [(a["path"] + [i], n) for a in attach if a["kind"] == "command" and not a["path"]
+                                    for i, n in enumerate(root["subs"]) if n["name"] == a["name"]]
+            pth, nd = r.choice(cands)
+            self.gen_addoption(nd, pth, attach)
         cfg["subopt"] = bool(root["subs"]) and self.chance("p_subopt")
         root["subopt"] = cfg["subopt"]
         # environment
@@ -578,6 +586,27 @@ class Gen:
         for _ in range(n_parses):
             sc["ops"].append({"op": "parse", "args": self.gen_argv(sc)})
         return sc
+
+    def gen_addoption(self, node, path, attach):
+        """Group.AddOption on the own group of the command at path: a hand-built Option bound to a fresh variable"""
+        r = self.rng
+        kind = r.choice(["string", "string", "int", "bool", "float64", "uint8", "duration", "custom"])
+        saved = {k: self.p[k] for k in ("p_base", "p_ininame", "p_inicross", "p_noini", "p_unquote_false", "p_bad_tag", "p_long_short",
+                                        "p_bool_default", "p_init")}
+        for k in saved: self.p[k] = 0.0
+        self.force_type = ("ptr", kind)
+        try:
+            scope = {"long": set(o["long"] for o in node["opts"] if o["long"]), "short": set((o["short"] or b"").decode("utf-8", "replace") for o in node["opts"])}
+            f, info = self.gen_option(scope)
+        finally:
+            self.force_type = None
+            self.p.update(saved)
+        info.update({"ns": (), "envns": (), "gdesc": None, "ghidden": bool(node.get("hidden")), "field": b"", "ext": True})
+        f["name"] = b""
+        zero = {"string": ("s", b""), "custom": ("s", b""), "bool": ("b", False), "float64": ("f", b"0")}.get(kind, ("i", 0))
+        self.init[f["fid"]] = ("p", self.init_value(("k", kind)) if r.random() < saved["p_init"] + 0.15 else zero)
+        node["opts"].append(info)
+        attach.append({"kind": "option", "path": list(path), "fields": [f]})
 
     def gen_attach_command(self, parent, path, attach, taken, depth):
         r = self.rng
